@@ -229,8 +229,9 @@ EXTRA = {
     "C05": " Also: zeros carrying free indices of different extents under binding in either index order, and the elementary functions at their rational points. atan2 (also of two literals); component tensors over indexed list tensors whose items share a free index; unary tensor operators on operands with free indices.",
     "C09": " Also: compound algebra over K.J (dot, det, sym, skew, cofac, ...) whose lowering instantiates one summation index object with several partners.",
     "C10": " Also: zeros with two free indices of different extents hidden in conditionals and closed by transposing component tensors. Component tensors that survive inside a conditional under an enclosing component tensor whose subscript re-uses the inner bound index (capture), shadowed binders subscripted with fixed indices, a closed inner sum over the same index object as the enclosing sum.",
-    "C12": " Also: placement histories that put a digit boundary inside the objects of several counters at once (constants crosswise on two meshes), coefficients on mixed spaces over a MeshSequence and their fixed components.",
-    "C13": " Also: scalar-literal constructor calls (IntValue/FloatValue/ComplexValue/as_ufl x int, bool, numpy integer, float, numpy float, complex, numpy complex x the flyweight cache of IntValue as state), including purely imaginary numbers with signed zero real part.",
+    "C11": " Counted terminals carry their Python class (Coefficient/Constant subclasses are numbered with their base class); integrals carry intersect measures on further meshes (new universe xm; mutations of the extra measure's type, mesh, presence).",
+    "C12": " Also: placement histories that put a digit boundary inside the objects of several counters at once (constants crosswise on two meshes), coefficients on mixed spaces over a MeshSequence and their fixed components. Placed families 'domains' (three meshes, two of them not integration domains) and 'contraction' (subscripts that sum several indices, grad, dx): TLC proves SigInvariant per family and every behaviour is replayed.",
+    "C13": " Also: scalar-literal constructor calls (IntValue/FloatValue/ComplexValue/as_ufl x int, bool, numpy integer, float, numpy float, complex, numpy complex x the flyweight cache of IntValue as state), including purely imaginary numbers with signed zero real part. Round trips (pickle protocols, copy, deepcopy, eval(repr)) are actions of the literal mode with the flyweights of Zero and MultiIndex as state: a round trip must leave every other object, the shared flyweights included, as it was.",
     "C16": " Also: transparent wrappers (variable, conj, real, imag, neg, indexed, index sums) over sums of terms of different arity.",
     "C17": " Also: five mesh kinds (affine, P2, affine manifold, P2 manifold, broken coordinates): the two facet-normal values are opposite exactly on affine H1 meshes with gdim = tdim and independent elsewhere; cell normals and reference normals.",
     "C18": " Also: symmetric elements with vector/tensor valued, Piola mapped or mixed sub-elements of different degrees, symmetric elements inside mixed elements and vice versa.",
